@@ -41,8 +41,24 @@ def discover():
 
 
 # ------------------------------------------------------------------ circuit families
+# parameter representations: how the user hands a gate parameter to the circuit.  A python float is immutable (``+=`` rebinds), a
+# numpy array / pennylane.numpy tensor is a mutable object OWNED BY THE INPUT CIRCUIT (``+=`` writes into it): spec/sys/HeapData.tla
+REPS = ["float", "nd0", "pnp", "nd1"]
+
+
+def wrap(rep, x):
+    if rep == "nd0":
+        return np.array(x)                                   # 0-d ndarray
+    if rep == "pnp":
+        return qp.numpy.array(x, requires_grad=True)         # autograd tensor
+    if rep == "nd1":
+        return np.array([x, round(x + 0.25, 6)])             # broadcasted batch of two
+    return float(x)
+
+
 def _ang(rng):
-    return float(rng.choice([0.1, 0.2, 0.3, 0.4, 0.5, 0.7, 0.9, 1.1, 1.3, -0.2, -0.6]))
+    x = float(rng.choice([0.1, 0.2, 0.3, 0.4, 0.5, 0.7, 0.9, 1.1, 1.3, -0.2, -0.6]))
+    return wrap(getattr(rng, "rep", "float"), x)
 
 
 def fam_rot(rng):
@@ -240,10 +256,50 @@ def fam_unitary(rng):
     return QuantumScript(ops, [qp.probs(wires=[0, 1])])
 
 
+def fam_accum(rng):
+    """neighbouring gates whose parameters a pass adds up: several global phases, rotation pairs, Rot pairs, phase shifts"""
+    blocks = [[qp.RX(_ang(rng), 0), qp.RX(_ang(rng), 0)], [qp.RZ(_ang(rng), 1), qp.RZ(_ang(rng), 1), qp.RZ(_ang(rng), 1)],
+              [qp.Rot(_ang(rng), _ang(rng), _ang(rng), 2), qp.Rot(_ang(rng), _ang(rng), _ang(rng), 2)],
+              [qp.PhaseShift(_ang(rng), 1), qp.PhaseShift(_ang(rng), 1)], [qp.CNOT([0, 1])], [qp.CRX(_ang(rng), [1, 2]), qp.CRX(_ang(rng), [1, 2])],
+              [qp.RY(_ang(rng), 0), qp.H(0)]]
+    rng.shuffle(blocks)
+    ops = [o for b in blocks[: rng.randint(4, 7)] for o in b]
+    for _ in range(rng.randint(2, 3)):
+        ops.insert(rng.randrange(len(ops) + 1), qp.GlobalPhase(_ang(rng)))
+    ops.insert(0, qp.GlobalPhase(_ang(rng)))
+    return QuantumScript(ops, [qp.expval(qp.Z(0)), qp.probs(wires=[1, 2])])
+
+
+def _chain_ops(rng):
+    """gates that every basic gate set contains, two-qubit gates only between neighbours of the line 0-1-2-3 (nothing to expand or route)"""
+    pool = [qp.RX(_ang(rng), 0), qp.CNOT([0, 1]), qp.RY(_ang(rng), 2), qp.CNOT([1, 2]), qp.RZ(_ang(rng), 1), qp.H(0), qp.CNOT([2, 1]), qp.RY(_ang(rng), 1)]
+    rng.shuffle(pool)
+    return pool[: rng.randint(3, 6)]
+
+
+def fam_mw_probs(rng):
+    """terminal measurements that name no wires (all wires of whatever runs the circuit): probs()"""
+    meas = [qp.probs()] + ([qp.expval(qp.Z(1))] if rng.random() < 0.6 else [])
+    rng.shuffle(meas)
+    return QuantumScript(_chain_ops(rng), meas)
+
+
+def fam_mw_state(rng):
+    """the full state, no wires named"""
+    return QuantumScript(_chain_ops(rng), [qp.state()])
+
+
+def fam_mw_samp(rng):
+    """finite shots, sample() / counts() without wires"""
+    meas = [rng.choice([qp.sample(), qp.counts()])] + ([qp.expval(qp.Z(0))] if rng.random() < 0.5 else [])
+    return QuantumScript(_chain_ops(rng), meas, shots=rng.choice([20, 30]))
+
+
 FAMILIES = {"rot": fam_rot, "ctrl": fam_ctrl, "noncomm": fam_noncomm, "ham": fam_ham, "shots": fam_shots, "mcm": fam_mcm, "bcast": fam_bcast,
             "cnot": fam_cnot, "cnotrz": fam_cnotrz, "cut": fam_cut, "cutmc": fam_cutmc, "alloc": fam_alloc, "embed": fam_embed,
             "clifft": fam_clifft, "toffoli": fam_toffoli, "shadow": fam_shadow, "pauli": fam_pauli, "rzonly": fam_rzonly, "unitary": fam_unitary,
-            "bcast_in": fam_bcast_in, "mbqc": fam_mbqc, "qwc": fam_qwc}
+            "bcast_in": fam_bcast_in, "mbqc": fam_mbqc, "qwc": fam_qwc,
+            "accum": fam_accum, "mw_probs": fam_mw_probs, "mw_state": fam_mw_state, "mw_samp": fam_mw_samp}
 
 
 # ------------------------------------------------------------------ recipes: minimal valid arguments per transform
@@ -297,11 +353,46 @@ RECIPES = {
     "match_controlled_iX_gate": lambda: ((), dict(num_controls=1)),
     "adjoint_state_measurements": lambda: ((), dict(device_vjp=False)),
     "legacy_device_batch_transform": None, "legacy_device_expand_fn": None,      # need a legacy device object: no recipe
+    # ---- variants: the same transform object called through its OPTIONAL arguments (other call paths)
+    "transpile[device]": lambda: ((), dict(coupling_map=[(0, 1), (1, 2), (2, 3)], device=qp.device("default.qubit", wires=[0, 1, 2, 3]))),
+    "transpile[device,mixed]": lambda: ((), dict(coupling_map=[(0, 1), (1, 2), (2, 3)], device=qp.device("default.mixed", wires=[0, 1, 2, 3]))),
+    "batch_params[all_operations]": lambda: ((), dict(all_operations=True)),
+    "cancel_inverses[nonrecursive]": lambda: ((), dict(recursive=False)),
+    "compile[basis_set]": lambda: ((), dict(basis_set=["CNOT", "RX", "RY", "RZ", "GlobalPhase"], num_passes=2)),
+    "decompose[stopping_condition]": lambda: ((), dict(stopping_condition=_prim, max_expansion=2)),
+    "defer_measurements[noreduce]": lambda: ((), dict(reduce_postselected=False, num_wires=8)),
+    "device_resolve_dynamic_wires[wires]": lambda: ((), dict(wires=qp.wires.Wires([0, 1, 2, 3, 7, 8]), allow_resets=False)),
+    "diagonalize_measurements[to_eigvals]": lambda: ((), dict(to_eigvals=True)),
+    "diagonalize_measurements[base_obs]": lambda: ((), dict(supported_base_obs=(qp.Z, qp.X, qp.Identity))),
+    "dynamic_one_shot[fill-shots]": lambda: ((), dict(postselect_mode="fill-shots")),
+    "finite_diff[center]": lambda: ((), dict(strategy="center", approx_order=2, argnum=[0])),
+    "hadamard_grad[reversed]": lambda: ((), dict(aux_wire="aux", mode="reversed")),
+    "hadamard_grad[direct]": lambda: ((), dict(mode="direct")),
+    "insert[start,before]": lambda: ((qp.PhaseDamping, 0.05), dict(position="start", before=True)),
+    "merge_rotations[include_gates]": lambda: ((), dict(include_gates=["RX", "RZ"], atol=1e-6)),
+    "metric_tensor[full]": lambda: ((), dict(approx=None, aux_wire="aux")),
+    "param_shift[broadcast]": lambda: ((), dict(broadcast=True)),
+    "param_shift[argnum,shifts]": lambda: ((), dict(argnum=[0], shifts=[(0.7,)])),
+    "parity_matrix[wire_order]": lambda: ((), dict(wire_order=[3, 2, 1, 0])),
+    "resolve_dynamic_wires[zeroed]": lambda: ((), dict(zeroed=(7, 8), any_state=(9,))),
+    "shadow_state[diffable]": lambda: ((), dict(wires=[0], diffable=True)),
+    "sign_expand[circuit]": lambda: ((), dict(circuit=True, J=4)),
+    "single_qubit_fusion[exclude_gates]": lambda: ((), dict(exclude_gates=["RX"], atol=1e-6)),
+    "split_non_commuting[wires]": lambda: ((), dict(grouping_strategy="wires")),
+    "split_non_commuting[qwc]": lambda: ((), dict(grouping_strategy="qwc")),
+    "split_non_commuting[none]": lambda: ((), dict(grouping_strategy=None)),
+    "spsa_grad[forward]": lambda: ((), dict(strategy="forward", approx_order=1, num_directions=2, sampler_rng=np.random.default_rng(12))),
+    "to_zx[expand_measurements]": lambda: ((), dict(expand_measurements=True)),
+    "validate_device_wires[none]": lambda: ((), dict(wires=None)),
+    "validate_measurements[lists]": lambda: ((), dict(analytic_measurements=lambda m: True, sample_measurements=lambda m: True)),
+    "circuit_spectrum[encoding_gates]": lambda: ((), dict(encoding_gates=["x"], decimals=4)),
+    "add_noise[level]": lambda: ((_noise_model(),), dict(level="top")),
 }
 # transforms that need the graph-based decomposition system switched on around the call
 NEEDS_GRAPH = {"convert_to_mbqc_gateset", "convert_to_mbqc_formalism", "decomp_inspector"}
 # variants of one transform object with different options: (variant name, transform short name)
 VARIANTS = {"commute_controlled[left]": "commute_controlled"}
+VARIANTS.update({n: n.split("[")[0] for n in RECIPES if "[" in n})
 
 
 def recipe(name):
